@@ -474,6 +474,8 @@ class SInt(Opaque):
     return None
 
   def _arith(self, o, f, rf):
+    if getattr(o, "_takes_int", False):
+      return NotImplemented      # other number algebras (fpalg) handle the mixed operation
     it = SInt._it(o)
     if it is not None:
       return SInt(f(self.t, it))
@@ -489,11 +491,15 @@ class SInt(Opaque):
   def __rmul__(self, o): return self._arith(o, lambda a, b: b * a, lambda a, b: b * a)
 
   def __truediv__(self, o):
+    if getattr(o, "_takes_int", False):
+      return NotImplemented
     d = term(o)
     _defined_div(d)
     return SReal(z3.ToReal(self.t) / d)
 
   def __rtruediv__(self, o):
+    if getattr(o, "_takes_int", False):
+      return NotImplemented
     d = z3.ToReal(self.t)
     _defined_div(d)
     return SReal(term(o) / d)
@@ -507,6 +513,8 @@ class SInt(Opaque):
   def __neg__(self): return SInt(-self.t)
 
   def _cmp(self, o, op):
+    if getattr(o, "_takes_int", False):
+      return NotImplemented
     it = SInt._it(o)
     if it is None:
       if isinstance(o, (float, SReal)):
